@@ -1,5 +1,61 @@
-/- Oracle driver for C01 (stub: replaced when the property's model is built). -/
-import Golem.Driver.Util
+/-
+Oracle driver for C01/C02: everything `Driver/C03` answers plus the optics requests, executed
+on `Model/Lens`.
+
+  lens|lensd sid P|S T A* ; NAME*      ok lo,hi … | panic:<class>     (`-` for a zero-size focus)
+      ForProductN / ForSpectrumN [T, A…](names…); the windows are relative to the container pointer
+  refl sid T A NAME DYN gett|putt      ok | panic:<class>
+      r := ForSpectrum1[T, A](NAME); r.Gett(dyn) / r.Putt(dyn, zero) where DYN is the dynamic type
+      of the argument (`nil` for a nil interface)
+-/
+import Golem.Model.Lens
+import Golem.Driver.C03
 namespace Golem.Driver.C01
-def main : IO Unit := IO.eprintln "oracle: no driver for C01 yet"
+open Golem.Model Golem.Driver Golem.Driver.C03
+
+def showWin (l : Lens) : String :=
+  if l.A.size = 0 then "-" else s!"{l.window.1},{l.window.2}"
+
+def splitAt (sep : String) : List String → List String × List String
+  | [] => ([], [])
+  | x :: xs => if x == sep then ([], xs) else let (a, b) := splitAt sep xs; (x :: a, b)
+
+def extra (S : GoType) : List String → Option String
+  | kind :: fam :: rest =>
+    if kind == "lens" || kind == "lensd" then
+      let (tys, names) := splitAt ";" rest
+      match typesOf (some S) tys with
+      | some (T :: As) =>
+        let r := if fam == "P" then forProduct T As names else forSpectrum T As names
+        some (exceptStr (fun ls => " ".intercalate ("ok" :: ls.map showWin)) r)
+      | _ => some "bad-type"
+    else if kind == "refl" then
+      -- here `fam :: rest` = T A NAME DYN op   (types may span several tokens)
+      match parseS (fam :: rest) with
+      | some (t, r1) =>
+        match parseS r1 with
+        | some (a, name :: r2) =>
+          let dynOp : Option (Option GoType × String) :=
+            match r2 with
+            | ["nil", op] => some (none, op)
+            | _ =>
+              match parseS r2 with
+              | some (d, [op]) => (toType (some S) d).map (fun d => (some d, op))
+              | _ => none
+          match toType (some S) t, toType (some S) a, dynOp with
+          | some T, some A, some (dyn, op) =>
+            some (exceptStr (fun ls =>
+              match ls with
+              | [l] =>
+                let m : Mem := fun _ => 0
+                if op == "gett" then exceptStr (fun _ => "ok") (l.gett m ⟨dyn, 1000⟩)
+                else exceptStr (fun _ => "ok") (l.putt m ⟨dyn, 1000⟩ (List.replicate A.size 0))
+              | _ => "bad-arity") (forSpectrum T [A] [name]))
+          | _, _, _ => some "bad-type"
+        | _ => some "bad-request"
+      | none => some "bad-request"
+    else none
+  | _ => none
+
+def main : IO Unit := loop extra
 end Golem.Driver.C01
